@@ -22,7 +22,14 @@ class Schedule:
     def perm(self, n, what):
         call = self.calls
         self.calls += 1
-        if n <= 1 or self.mode == 'identity':
+        if self.mode == 'fixed':
+            # replay of a recorded schedule: the permutations in the order they were drawn
+            fixed = getattr(self, 'fixed', [])
+            if call < len(fixed) and fixed[call][0] == what and fixed[call][1] == n:
+                p = list(fixed[call][2])
+            else:
+                p = list(range(n))
+        elif n <= 1 or self.mode == 'identity':
             p = list(range(n))
         elif self.mode == 'reverse':
             p = list(range(n))[::-1]
@@ -138,15 +145,23 @@ class SymPool:
         results = [None] * n
         fs = SymPool.fs
         rec = []
+        g = getattr(fn, '__globals__', None) if getattr(SymPool, 'check_globals', False) else None
         for i in order:
             a0 = len(fs.audit) if fs is not None else 0
             r0 = len(fs.reads) if fs is not None else 0
+            before = {k: id(v) for k, v in g.items()} if g is not None else None
             try:
                 arg = self._cross(tasks[i])
                 out = fn(arg)
                 results[i] = (True, self._cross(out))
             except Exception as e:      # noqa: a worker's exception travels to the parent
                 results[i] = (False, e)
+            if before is not None and SymPool.record is not None:
+                changed = [k for k, v in g.items() if before.get(k) != id(v)] + [k for k in before if k not in g]
+                if changed:
+                    if not hasattr(SymPool.record, 'globals_changed'):
+                        SymPool.record.globals_changed = []
+                    SymPool.record.globals_changed.append('task %d of %s(%s) changed module globals %s' % (i, what, getattr(fn, '__name__', fn), changed[:3]))
             if fs is not None:
                 rec.append((i, [p for op, p in fs.audit[a0:]], list(fs.reads[r0:])))
         if SymPool.record is not None:
